@@ -63,12 +63,6 @@ func concGen(rng *Rng, i int, tier string) (*ConcCase, error) {
 		if drop[op.Kind] {
 			continue
 		}
-		// a release without allocation key terminates the application; a later ask for it can hit the window in which
-		// the application is terminated (queue unset) but still registered: nil dereference in Application.AddAllocationAsk
-		// also from ONE goroutine (sequential finding, reported to the owner of C13): not generated here
-		if op.Kind == "release" && op.Key == "" {
-			continue
-		}
 		if calm {
 			switch op.Kind {
 			case "app_remove", "reload", "node_remove", "node_drain", "fire_ph", "fire_state", "clean":
